@@ -43,6 +43,8 @@ def read_lock():
             if not line or line.startswith("#"):
                 continue
             prop, name = line.split(" ", 1)
+            if "/cover[" in name:
+                continue        # vacuity covers are reported, never required (a model search that times out is not a verdict)
             out.setdefault(prop, set()).add(name)
     return out
 
@@ -168,7 +170,10 @@ def main(argv=None):
         refuted = [g for n, g in groups.items() if g["verdict"] == "refuted" and n in lock]
         new_refuted = [g for n, g in groups.items() if g["verdict"] == "refuted" and n not in lock]
         missing = sorted(n for n in lock if n not in groups)
-        open_locked = [g for n, g in groups.items() if g["verdict"] == "undecided" and n in lock]
+        # vacuity covers ask the solver for a MODEL of quantified assumptions: a timeout there is not a verdict about the property and is only noted
+        # (a cover that is REFUTED -- contradictory assumptions -- is reported); every other locked obligation must discharge
+        open_locked = [g for n, g in groups.items() if g["verdict"] == "undecided" and n in lock and g["kind"] != "cover"]
+        covers_open = [n for n, g in groups.items() if g["verdict"] == "undecided" and g["kind"] == "cover"]
         discharged = [g for n, g in groups.items() if g["verdict"] == "discharged"]
         # ---- bounded layer (same contracts at run time on the real code)
         bounded = None
@@ -220,8 +225,11 @@ def main(argv=None):
                 tail = "" if (v["source"] == "bounded" or concrete) else " no-failing-input-found"
                 print(f"VIOLATION property={prop} replay={path}{tail}")
                 replay_paths.append(path)
-        elif undecided_fns or open_locked or missing:
+        elif undecided_fns or open_locked or missing or any(g["kind"] == "cover" and g["verdict"] == "refuted" for g in groups.values()):
             rc = 2
+            for n, g in groups.items():
+                if g["kind"] == "cover" and g["verdict"] == "refuted":
+                    print(f"UNDECIDED property={prop} obligation={n}: the assumptions of this function are contradictory (vacuous proof)")
             for key, why in undecided_fns:
                 print(f"UNDECIDED property={prop} function={key}: {why}")
             for g in open_locked:
@@ -238,10 +246,12 @@ def main(argv=None):
                 print(f"UNDECIDED property={prop} bounded case ran out of time/memory: {str(t)[:160]}")
         for g in new_refuted:
             print(f"NOTE property={prop} obligation={g['name']} is refuted but not locked (not required; see DESIGN 2.8)")
+        if covers_open and args.verbose:
+            print(f"NOTE property={prop} {len(covers_open)} vacuity covers without a model within the budget (not a verdict)")
         write_evidence(prop, tier, seed, R, funcs, groups, lock, bounded, violations, known_hits, undecided_fns, solve_s,
                        time.time() - t_start, src)
         n_req = len(lock)
-        n_ok = sum(1 for n in lock if n in groups and groups[n]["verdict"] == "discharged")
+        n_ok = sum(1 for n in lock if n in groups and (groups[n]["verdict"] == "discharged" or (groups[n]["kind"] == "cover" and groups[n]["verdict"] == "undecided")))
         print(f"{prop} [{tier}] obligations required={n_req} discharged={n_ok} generated={len(groups)} "
               f"functions={len(funcs)} bounded_evaluations={(bounded or {}).get('evaluations', 0)} "
               f"violations={len(violations)} known_findings={len(known_hits)} wall={time.time() - t_start:.1f}s")
@@ -269,6 +279,8 @@ def write_lock(prop, groups, undecided_fns):
             cur.setdefault(p, set()).add(n)
     keep = set()
     for n, g in groups.items():
+        if g["kind"] == "cover":
+            continue
         if g["verdict"] == "discharged":
             keep.add(n)
         else:
@@ -315,6 +327,9 @@ def write_evidence(prop, tier, seed, R, funcs, groups, lock, bounded, violations
         "functions_under_contract": fn_rows,
         "obligation_results": ob_rows,
         "obligations_generated": len(groups),
+        "vacuity_covers": {"model_found": sorted(n for n, g in groups.items() if g["kind"] == "cover" and g["verdict"] == "discharged"),
+                           "no_model_within_budget": sorted(n for n, g in groups.items() if g["kind"] == "cover" and g["verdict"] == "undecided"),
+                           "contradictory": sorted(n for n, g in groups.items() if g["kind"] == "cover" and g["verdict"] == "refuted")},
         "obligations_not_required": sorted(n for n in groups if n not in lock),
         "solver_seconds": round(solve_s, 2),
         "back_ends": sorted({s for g in groups.values() for s in g["solvers"]}),
